@@ -86,6 +86,74 @@ def many_interleaved(v, tier, ev, mlar):
     log(f"[C17] {n} interleaved files (two runs each, more than the pool of 1000 descriptors): extract, list, to-tar compared")
 
 
+def directory_inputs(v, tier, ev, mlar):
+    """`create` given DIRECTORIES (walked recursively, empty ones ignored), with the same directory reachable under two
+    names (a symbolic link, `dir` and `./dir`) and a link to a file: the archive lists every path of the walk and gives back
+    the bytes found under each."""
+    wd = workdir("c17-dirs")
+    os.makedirs(os.path.join(wd, "proj", "releases", "v1", "conf"))
+    os.makedirs(os.path.join(wd, "proj", "empty_dir"))
+    os.makedirs(os.path.join(wd, "other"))
+    blobs = {"proj/releases/v1/app.bin": bytes(range(256)) * 300, "proj/releases/v1/conf/settings.txt": b"mode=fast\n",
+             "proj/top.txt": b"top level\n", "other/readme": b"other tree\n"}
+    for rel, data in blobs.items():
+        open(os.path.join(wd, rel), "wb").write(data)
+    os.symlink("releases/v1", os.path.join(wd, "proj", "current"))          # the same directory under a second name
+    os.symlink("releases/v1/app.bin", os.path.join(wd, "proj", "link.bin"))  # a link to a file
+    os.symlink("../other", os.path.join(wd, "proj", "vendor"))                # a link to a directory outside the input
+
+    def run(args):
+        p = subprocess.run([mlar] + args, cwd=wd, stdout=subprocess.PIPE, stderr=subprocess.PIPE, timeout=300, preexec_fn=limit_as)
+        return p.returncode, p.stdout, p.stderr.decode(errors="replace")[-300:]
+
+    def walk(arg):
+        out = {}
+        if os.path.isdir(os.path.join(wd, arg)):
+            for d, _, fs in os.walk(os.path.join(wd, arg), followlinks=True):
+                for f in fs:
+                    full = os.path.join(d, f)
+                    out[os.path.join(arg, os.path.relpath(full, os.path.join(wd, arg)))] = open(full, "rb").read()
+        else:
+            out[arg] = open(os.path.join(wd, arg), "rb").read()
+        return out
+    n = 0
+    for ci, argsets in enumerate((["proj"], ["proj/releases/v1", "proj/current"], ["other", "./other", "proj/top.txt"])):
+        want = {}
+        for a in argsets:
+            want.update(walk(a))
+        arch = os.path.join(wd, f"d{ci}.mla")
+        rc, so, se = run(["create", "-o", arch] + argsets + ["-l"])
+        rec = dict(check="cli-observe", cmd="create-dir", keymode="missing", layers="none")
+        ctx = dict(inputs=argsets, rc=rc, stderr=se)
+        if rc != 0:
+            v.violation(dict(rec, kind="transform-failed"), ctx)
+            continue
+        rc, so, se = run(["list", "-i", arch])
+        got = sorted(so.decode().splitlines())
+        n += 1
+        if rc != 0 or got != sorted(want):
+            v.violation(dict(rec, cmd="list", kind="listing-differs"), dict(ctx, missing=sorted(set(want) - set(got))[:6], extra=sorted(set(got) - set(want))[:6]))
+            continue
+        # contents, name by name (cat); whole-archive extraction too unless two names normalise to the same path
+        # (`other/x` and `./other/x`: C16 excludes colliding members from "exactly their content")
+        bad = []
+        for k, d in want.items():
+            rc, so, se = run(["cat", "-i", arch, "-o", "-", k])
+            if rc != 0 or so != d:
+                bad.append(k)
+        if bad:
+            v.violation(dict(rec, cmd="cat", kind="cat-content-differs"), dict(ctx, wrong=bad[:6]))
+        if len({os.path.normpath(k) for k in want}) == len(want):
+            out = os.path.join(wd, f"x{ci}")
+            rc, so, se = run(["extract", "-i", arch, "-o", out])
+            bad = [k for k, d in want.items() if not os.path.isfile(os.path.join(out, k)) or open(os.path.join(out, k), "rb").read() != d]
+            if rc != 0 or bad:
+                v.violation(dict(rec, cmd="extract", kind="extracted-content-differs"), dict(ctx, wrong=bad[:6]))
+    shutil.rmtree(wd, ignore_errors=True)
+    ev["directory_inputs"] = n
+    log(f"[C17] create from directories (one directory under two names, links to a file and to an outside directory): {n} archives compared with the walk")
+
+
 def main(tier):
     v = Verdict("C17", tier)
     ev = dict(tlc=[])
@@ -298,7 +366,8 @@ def main(tier):
     shutil.rmtree(wd, ignore_errors=True)
     log(f"[C17] Cli: {len(behs)} pipeline/observer/key behaviours, {len(built)} archives built, {nobs} observations made with the real mlar")
     many_interleaved(v, tier, ev, mlar)
-    cov = dict(interleaved_files_extracted=ev.get("many_files", 0), states=r.distinct, transitions=r.generated, traces_validated_against_impl=nobs, samples=samples or ["none"],
+    directory_inputs(v, tier, ev, mlar)
+    cov = dict(interleaved_files_extracted=ev.get("many_files", 0), directory_input_archives=ev.get("directory_inputs", 0), states=r.distinct, transitions=r.generated, traces_validated_against_impl=nobs, samples=samples or ["none"],
                behaviours_from_model=len(behs), archives_built=len(built), tlc_runs=ev["tlc"], exhaustive=True,
                rule="pipelines create (-> convert | repair)^{0..MaxSteps} over {none, compress, encrypt, both} x observers "
                     "{list, -v, -vv, cat, extract, extract one, to-tar, convert, repair, info} x key modes {right, wrong, missing, "
